@@ -156,7 +156,8 @@ cdef class BufferedReader:
 
         self._buffer = self._perform_read(self._chunk_size)
         self._buffer_len = len(self._buffer)
-        self._buffer_pos = read_size
+        # NOTE: The source may have returned fewer bytes than requested.
+        self._buffer_pos = min(read_size, self._buffer_len)
         return result + self._buffer[:read_size]
 
     def read_until(self, bytes delimiter not None, size=-1,
